@@ -17,6 +17,7 @@ def c02(run):
                              "similarity and general-position images; non-trivial = both operands non-empty and not "
                              "disjoint; distinct by hash of the case"}
     run.model_check("MC_DE9IM", timeout=900)
+    family_enumerated(run, "relate", "Gen_Matches", "Trace_Relate", gen_cfg=tier_n(run, "Gen_Matches.cfg", "Gen_Matches_full.cfg"))
     family_random(run, "relate", "Trace_Relate", tier_n(run, 6000, 400000))
 
 FAMILY_MODULE["valid"] = "Trace_Valid"
@@ -30,6 +31,7 @@ def c03(run):
                              "representation (ring start, direction, hole/member order, similarity); (Multi)LineString "
                              "simplicity; NaN/Inf ordinates. Non-trivial = non-empty; distinct by hash of the case"}
     family_enumerated(run, "valid", "Gen_Valid", "Trace_Valid", gen_cfg=tier_n(run, "Gen_Valid.cfg", "Gen_Valid_full.cfg"))
+    family_enumerated(run, "valid", "Gen_Rings", "Trace_Valid", label="rings", gen_cfg=tier_n(run, "Gen_Rings.cfg", "Gen_Rings_full.cfg"))
     family_random(run, "valid", "Trace_Valid", tier_n(run, 12000, 600000))
 
 FAMILY_MODULE["overlay"] = "Trace_Overlay"
@@ -69,6 +71,8 @@ def _flip_char(m, i):
 
 
 def _canary_relate(e):
+    if e.get("kind") == "matches":
+        return None
     if e.get("err") or e.get("panic") or len(e["ab"]) != 9:
         return None
     e["ab"] = _flip_char(e["ab"], 4)
@@ -501,7 +505,7 @@ def c10(run):
                              "history is executed by two fresh processes and joined (map iteration order differs per process and per "
                              "range), so results must be functions of the operand digests across goroutines and processes"}
     run.model_check("MC_Purity", timeout=1800)
-    n = tier_n(run, 20, 400)
+    n = tier_n(run, 40, 600)
     # generate the cases once (record mode of a non-race build only to obtain the repro strings would execute them; use Gen via record and keep repro)
     seedfile = _os.path.join(run.dir, "purity-cases.ndjson")
     import random
@@ -525,13 +529,18 @@ def c10(run):
         with open(again, "w") as f:
             for l in lines:
                 f.write(evs[l - 1]["repro"] + "\n")
-        joined2, evs2 = _purity_round(run, again, "r2")
-        v2, _ = run.validate("Trace_Purity", joined2, label="confirm", count=False)
-        bad2 = {v["l"]: v for v in v2 if _vlib.classify(v) == "mismatch"}
-        if not bad2:
-            raise _ME("purity mismatch not reproduced: %s" % bad[:3])
-        for idx, v in bad2.items():
-            run.mismatches.append({"family": "purity", "reason": v["r"], "repro": _json.loads(evs2[idx - 1]["repro"]),
-                                   "deterministic": False, "event": {"i": v.get("i")}})
+        found = False
+        for attempt in range(3):    # nondeterminism may need more than one repetition to show again
+            joined2, evs2 = _purity_round(run, again, "r2-%d" % attempt)
+            v2, _ = run.validate("Trace_Purity", joined2, label="confirm", count=False)
+            bad2 = {v["l"]: v for v in v2 if _vlib.classify(v) == "mismatch"}
+            for idx, v in bad2.items():
+                found = True
+                run.mismatches.append({"family": "purity", "reason": v["r"], "repro": _json.loads(evs2[idx - 1]["repro"]),
+                                       "deterministic": False, "event": {"i": v.get("i")}})
+            if found:
+                break
+        if not found:
+            raise _ME("purity mismatch not reproduced in three rounds: %s" % bad[:3])
     else:
         props.canary(run, "purity", "Trace_Purity", joined)
